@@ -1,6 +1,6 @@
 (* C01 -- property theorems only. *)
 From Coq Require Import String.
-From CppcmsV Require Import Base.Tac Base.Sweep C15.Defs C01.Defs C01.HttpSpec C01.HttpSeg C01.Chunked C01.ChunkedProofs C01.Enc C01.EncProofs C01.EncProofs2 C01.Conn C01.ConnProofs C01.HttpEnc C01.HttpEncProofs C01.HttpView C01.Pool C01.PoolProofs C01.Examples C01.Proofs Base.CSem C01.Link gen.Gen_C01.
+From CppcmsV Require Import Base.Tac Base.Sweep C15.Defs C01.Defs C01.HttpSpec C01.HttpSeg C01.Chunked C01.ChunkedProofs C01.Enc C01.EncProofs C01.EncProofs2 C01.Conn C01.ConnProofs C01.HttpEnc C01.HttpEncProofs C01.HttpView C01.HttpUri C01.Final C01.Cookies C01.CookiesProofs C01.Pool C01.PoolProofs C01.Examples C01.Proofs Base.CSem C01.Link gen.Gen_C01.
 Local Open Scope N_scope.
 
 (* ---------------------------------------------------------------------------------------------------------
@@ -352,6 +352,92 @@ Proof.
     split; [vm_compute; reflexivity|]. split; [vm_compute; split; intros H; discriminate H|].
     split; [vm_compute; reflexivity|vm_compute; intros H; discriminate H]. }
   vm_compute. reflexivity.
+Qed.
+
+(* ---------------------------------------------------------------------------------------------------------
+   5e. The property in its final form: all well-formed requests x all segmentations of the byte stream x all FastCGI
+       record layouts x keep-alive sequences of k requests, for the models that are extracted and run against the
+       real service (http_conn, fcgi_conn_c, scgi_decode_c). *)
+Theorem http_all_segmentations :
+  forall names qs chunks fuel,
+  Forall (hq_ok names) qs -> qs <> [] -> (length qs <= fuel)%nat ->
+  concat chunks = flat_map hq_wire qs ->
+  http_conn fuel names chunks = map (fun q => IReq (hq_v q) (hq_body q)) qs.
+Proof. exact http_all_segmentations_lemma. Qed.
+Print Assumptions http_all_segmentations.
+
+Theorem fcgi_all_segmentations :
+  forall qs chunks fuel,
+  Forall freq_ok qs -> Forall (fun q => N.odd (q_flags q) = true) qs -> (length qs <= fuel)%nat -> qs <> [] ->
+  concat chunks = flat_map enc_freq qs ->
+  fcgi_conn_c fuel (cache_of chunks) = map (fun q => FIReq true (q_env q) (q_body q)) qs.
+Proof. exact fcgi_all_segmentations_lemma. Qed.
+Print Assumptions fcgi_all_segmentations.
+
+Theorem scgi_all_segmentations :
+  forall num e body chunks,
+  ~ In 58 num -> (length num <= 15)%nat -> atoi num = Z.of_nat (length (enc_scgi_blob e)) ->
+  N.of_nat (length (enc_scgi_blob e)) <= 16384 -> (16 < length num + 2 + length (enc_scgi_blob e))%nat ->
+  scgi_env_ok e ->
+  concat chunks = enc_scgi num e body ->
+  scgi_abs (scgi_decode_c (cache_of chunks)) = SOk e body.
+Proof. exact scgi_all_segmentations_lemma. Qed.
+Print Assumptions scgi_all_segmentations.
+
+(* the HTTP view field by field: method as sent, SCRIPT_NAME = the first configured script name matching on a path
+   component boundary, PATH_INFO = percent-decoded rest of the path (C string), QUERY_STRING verbatim (not decoded) *)
+Theorem http_request_view :
+  forall names m script path q pr hs,
+  all_token m -> no_byte 63 script -> no_byte 63 path -> (exists s', script = 47 :: s') ->
+  strip_script names (script ++ path) = Some (script, path) ->
+  exists v,
+    process_request names (fold_left add_hdr hs (http_req0 m (script ++ path ++ qpart q) pr)) = POk v /\
+    v_method v = m /\ v_script v = script /\ v_path_info v = cstr (urldecode path) /\
+    v_query v = (match q with Some qs => qs | None => [] end).
+Proof. exact http_request_view_lemma. Qed.
+Print Assumptions http_request_view.
+
+Theorem script_name_first_match :
+  forall before script after path,
+  Forall (fun n => script_matches n (script ++ path) = false) before -> boundary path ->
+  strip_script (before ++ script :: after) (script ++ path) = Some (script, path).
+Proof. exact strip_script_hit. Qed.
+Print Assumptions script_name_first_match.
+
+(* the header glue on any delivered header text "token-name : anything" - with http_head_lines this covers folded
+   lines, quoted strings and comments: the value is everything after the colon, leading LWS skipped, verbatim *)
+Theorem http_header_glue_general :
+  forall n x, all_token n -> parse_single_header (n ++ 58 :: x) = Some (map upper_name n, cstr (skip_ws x)).
+Proof. exact parse_single_header_general. Qed.
+Print Assumptions http_header_glue_general.
+
+Example final_form_nonvacuous :
+  Forall (hq_ok ex_names) [ex_q1; ex_q2] /\
+  strip_script ex_names (bs "/async"%string ++ bs "/a%20b"%string) = Some (bs "/async"%string, bs "/a%20b"%string) /\
+  Forall (fun n => script_matches n (bs "/async"%string ++ bs "/a%20b"%string) = false) [bs "/sync"%string] /\
+  cstr (urldecode (bs "/a%20b"%string)) = bs "/a b"%string /\
+  script_matches (bs "/sync"%string) (bs "/syncx/y"%string) = false.
+Proof.
+  destruct frontends_agree_nonvacuous as (_ & _ & _ & _ & _ & _ & _ & _ & _ & _ & H1 & H2 & _).
+  split; [constructor; [exact H1|constructor; [exact H2|constructor]]|].
+  split; [vm_compute; reflexivity|]. split; [constructor; [vm_compute; reflexivity|constructor]|]. split; vm_compute; reflexivity.
+Qed.
+
+(* ---------------------------------------------------------------------------------------------------------
+   5f. Cookies: request::parse_cookies (read_key_value, unquote, the first cookie of a name wins) inverts the Cookie header
+       encoder "k1=v1; k2=v2; ..." for token names not starting with $, token (possibly empty) values, unique names. *)
+Theorem cookies_roundtrip :
+  forall l, Forall cookie_ok l -> NoDup (map fst l) -> parse_cookies (enc_cookies l) = l.
+Proof. exact parse_cookies_enc. Qed.
+Print Assumptions cookies_roundtrip.
+
+Example cookies_nonvacuous :
+  Forall cookie_ok [(bs "sid"%string, bs "a1-b2.c3"%string); (bs "k"%string, []); (bs "theme"%string, bs "dark"%string)] /\
+  enc_cookies [(bs "sid"%string, bs "a1-b2.c3"%string); (bs "k"%string, []); (bs "theme"%string, bs "dark"%string)]
+  = bs "sid=a1-b2.c3; k=; theme=dark"%string /\
+  parse_cookies (bs "$Version=1; a=""x y;,"" , b = 2;a=3"%string) = [(bs "a"%string, bs "x y;,"%string); (bs "b"%string, bs "2"%string)].
+Proof.
+  split; [apply cookies_okb_ok; vm_compute; reflexivity|]. split; vm_compute; reflexivity.
 Qed.
 
 (* ---------------------------------------------------------------------------------------------------------
